@@ -64,8 +64,10 @@ class Gen:
             elif x < .55:
                 out.append(['ins', self.fresh(), self.mark(), [self.run() for _ in range(self.r.randint(1, 2))]]); self.features.add('ins')
             elif x < .65:
-                r = self.run(); r[3] = [['dt', k[1]] if k[0] == 't' else k for k in r[3]]
-                out.append(['del', self.fresh(), self.mark(), [r]]); self.features.add('del')
+                rs = []
+                for _ in range(self.r.randint(1, 2)):
+                    r = self.run(); r[3] = [['dt', k[1]] if k[0] == 't' else k for k in r[3]]; rs.append(r)
+                out.append(['del', self.fresh(), self.mark(), rs]); self.features.add('del')
             elif x < .72:      # substitution: del followed by ins
                 r = self.run(); r[3] = [['dt', k[1]] if k[0] == 't' else k for k in r[3]]
                 a = self.r.choice(AUTHORS)
@@ -131,6 +133,7 @@ class Gen:
             x = self.r.random()
             if x < .7: stories.append({'kind': 2, 'blocks': self.blocks(self.r.randint(1, 2))}); self.features.add('footer')
             if x > .5: stories.append({'kind': 2, 'hf': 'first', 'blocks': self.blocks(self.r.randint(1, 2))}); self.features.add('first_footer')
+        if len(self.comments) > 1 and self.r.random() < .4: self.comments = self.comments[1:] + self.comments[:1]; self.features.add('comments_unsorted')
         return {'stories': stories, 'comments': self.comments, 'next_uid': self.uid + 1000, 'rpr_table': self.table_list(), 'features': sorted(self.features)}
     def table_list(self): return list(RPR_EXTRA) + ['<w:rStyle w:val="CommentReference"></w:rStyle>']
 
